@@ -27,10 +27,13 @@
 (***************************************************************************)
 EXTENDS History, Json, IOUtils
 
-Events == TLCEval(JsonDeserialize(IOEnv.HIST_FILE))
+\* The file is parsed once, before the search starts, into TLC register 1 (a definition
+\* Events == JsonDeserialize(...) would be re-evaluated - re-parsed - at every reference).
+ASSUME TLCSet(1, JsonDeserialize(IOEnv.HIST_FILE))
+Events == TLCGet(1)
 
-TProc == {Events[i].proc : i \in 1..Len(Events)}
-TSeed == {Events[i].seed : i \in 1..Len(Events)}
+\* Proc and Seed are given in the configuration: the process ids / seeds that occur in the file
+\* (Spawn checks s \in Seed; a process outside Proc has no alive[p], so its line is not consumed)
 
 VARIABLES l, wtext, wname, wklass      \* next line; who bound each registry key first
 
